@@ -249,7 +249,8 @@ StartRender ==
     /\ ret' = "nil" /\ slot' = NoChild /\ evals' = 0 /\ leafs' = 0 /\ first' = "nil" /\ late' = FALSE
     /\ pev' = <<>>
     /\ lbl' = "StartRender"
-    /\ UNCH(<<cfg, run, bufs, cur, pool, nfresh, W, hist>>)
+    /\ W' = [W EXCEPT ![SideW] = NewSideW]          \* a collecting component makes its writer anew
+    /\ UNCH(<<cfg, run, bufs, cur, pool, nfresh, hist>>)
 
 Running == phase = "run" /\ stack # <<>>
 
